@@ -196,8 +196,11 @@ def r3_ordering(ctx):
               "a cleaning step is skipped on some path before individuals are loaded", construct="cleaning before loading")
     ad = ix.func(f"{PKG}.individual_data", "IndividualData.add_observations", "C14.R3")
     al = Canon(ad.node).lines(True, True)
-    ba = unify(al, ["for (zip($1, $2), (?t, ?o))", "?idx = bisect($0.timepoints, ?t)", "$0.timepoints = np.concatenate([$0.timepoints[:?idx], [?t], $0.timepoints[?idx:]])",
-                    "$0.observations = np.concatenate([$0.observations[:?idx], [?o], $0.observations[?idx:]])"])
+    B_ = "bisect($0.timepoints, ?t)"
+    ba = unify(al, ["for (zip($1, $2), (?t, ?o))", "?idx = " + B_, f"$0.timepoints = np.concatenate([$0.timepoints[:{B_}], [?t], $0.timepoints[{B_}:]])",
+                    "$0.observations = np.concatenate([$0.observations[:?idx], [?o], $0.observations[?idx:]])"]) \
+        or unify(al, ["for (zip($1, $2), (?t, ?o))", "?idx = " + B_, "$0.timepoints = np.concatenate([$0.timepoints[:?idx], [?t], $0.timepoints[?idx:]])",
+                      "$0.observations = np.concatenate([$0.observations[:?idx], [?o], $0.observations[?idx:]])"])
     as_ = " ".join(al)
     if ba is not None:
         ctx.check(ba["#1"] < ba["#2"], "C14.R3", ad, ad.node, "ages inserted at the bisection index (computed on the ages before insertion)", "the insertion index is computed after the age was inserted", construct="sorted insertion of ages")
